@@ -681,15 +681,14 @@ class printcore():
                 self.clear = True
             self.queueindex += 1
         else:
+            # The reset sent below is acknowledged like any other
+            # command; until then an operation is still pending
+            sends_reset = not self.paused and self._send_line_numbers
+            self.clear = not sends_reset
             self.printing = False
-            self.clear = True
             if not self.paused:
                 self.queueindex = 0
                 self._reset_line_numbers()
-                if self._send_line_numbers:
-                    # The reset is acknowledged like any other command;
-                    # until then an operation is still pending
-                    self.clear = False
 
     def _send(self, command, lineno = 0, calcchecksum = False):
         # Only add checksums if over serial (tcp does the flow control itself)
